@@ -70,8 +70,12 @@ func (c *chunkConn) Write(p []byte) (int, error) {
 	}
 	return c.w.Write(p)
 }
-func (c *chunkConn) written() []byte                    { c.mu.Lock(); defer c.mu.Unlock(); return bytes.Clone(c.w.Bytes()) }
-func (c *chunkConn) isClosed() bool                     { c.mu.Lock(); defer c.mu.Unlock(); return c.closed }
+func (c *chunkConn) written() []byte {
+	c.mu.Lock()
+	defer c.mu.Unlock()
+	return bytes.Clone(c.w.Bytes())
+}
+func (c *chunkConn) isClosed() bool { c.mu.Lock(); defer c.mu.Unlock(); return c.closed }
 func (c *chunkConn) Close() error {
 	c.mu.Lock()
 	c.closed = true
@@ -81,7 +85,7 @@ func (c *chunkConn) Close() error {
 	c.mu.Unlock()
 	return nil
 }
-func (c *chunkConn) parked() bool { c.mu.Lock(); defer c.mu.Unlock(); return c.waiting > 0 }
+func (c *chunkConn) parked() bool                       { c.mu.Lock(); defer c.mu.Unlock(); return c.waiting > 0 }
 func (c *chunkConn) LocalAddr() net.Addr                { return &net.TCPAddr{} }
 func (c *chunkConn) RemoteAddr() net.Addr               { return &net.TCPAddr{} }
 func (c *chunkConn) SetDeadline(t time.Time) error      { return nil }
